@@ -276,6 +276,7 @@ func RunProgram(rng *rand.Rand, dir string, cfg Config) (rep *Report) {
 	names := Names(rng, cfg.NNames, cfg.LongNames)
 	s.SetDelay(cfg.Delay)
 	var held []int
+	var heldPath []string // the name each held descriptor was opened under
 	defer func() {
 		for _, fd := range held {
 			s.Release(fd)
@@ -356,9 +357,15 @@ func RunProgram(rng *rand.Rand, dir string, cfg Config) (rep *Report) {
 			if fd, e := s.Hold(p); e == nil {
 				rep.OpKinds["hold"]++
 				held = append(held, fd)
+				heldPath = append(heldPath, p)
 			}
 		case k == 13:
-			if len(held) > 0 && rng.Intn(2) == 0 {
+			if len(held) > 0 && rng.Intn(5) == 0 && !cfg.NoFiles {
+				// (re-)Add the name a held descriptor was opened under: it may be gone (the Add fails and
+				// must change nothing: the file and its watch live on), name another file, or be unchanged
+				rep.OpKinds["add-of-a-held-name"]++
+				s.AddStrict(rep, Spell(rng, base, heldPath[rng.Intn(len(heldPath))]))
+			} else if len(held) > 0 && rng.Intn(2) == 0 {
 				// change the file through a held descriptor (it may have lost its name meanwhile)
 				rep.OpKinds["touch-through-held-descriptor"]++
 				s.TouchHeld(held[rng.Intn(len(held))], rng.Intn(2) == 0)
@@ -367,6 +374,7 @@ func RunProgram(rng *rand.Rand, dir string, cfg Config) (rep *Report) {
 				j := rng.Intn(len(held))
 				s.Release(held[j])
 				held = append(held[:j], held[j+1:]...)
+				heldPath = append(heldPath[:j], heldPath[j+1:]...)
 			}
 		case k == 14:
 			if cfg.PauseBias > 0 && rng.Intn(cfg.PauseBias) == 0 {
